@@ -27,17 +27,14 @@ func (a *DropPlanner) cutLabels(e *shared.LogEntry) error {
 	if e.Labels == nil {
 		return nil
 	}
-	recountFP := false
 	for k, v := range e.Labels {
 		for i, l := range a.Labels {
 			if k == l && (a.Values[i] == "" || v == a.Values[i]) {
 				delete(e.Labels, k)
-				recountFP = true
 			}
 		}
 	}
-	if recountFP {
-		e.Fingerprint = fingerprint(e.Labels)
-	}
+	// always recounted: an entry that lost nothing must fall into the series of the entries that became equal to it
+	e.Fingerprint = fingerprint(e.Labels)
 	return nil
 }
